@@ -92,4 +92,12 @@ OverflowIsOpen ==
   (st.pc = "printed" /\ IsSignTx /\ st.tx.kind = "legacy" /\ st.tx.chainId # <<>> /\ ~VFits256(st.tx.chainId)) => st.either
 Terminates == <>(st.pc \in Terminal)
 ASSUME Cardinality(Commands) = 48 + 4 + 8 + 162
+\* anti-vacuity: the command set reaches every terminal kind, every refusal the invariants speak about, and a
+\* printed result of every subcommand
+Finals == {Run(c) : c \in Commands}
+ASSUME {f.pc : f \in Finals} = Terminal
+ASSUME {"missing_replay_protection", "selectors_combined", "mnemonic_required", "raw_digest", "hex_text"} \subseteq {f.why : f \in Finals}
+ASSUME {"address", "export", "public-key", "sign", "hash", "hex"} = {f.cmd.sub : f \in {g \in Finals : g.pc = "printed"}}
+ASSUME \E f \in Finals : f.pc = "printed" /\ f.cmd.sub = "sign" /\ f.cmd.what = "transaction" /\ f.tx.kind = "legacy" /\ f.tx.chainId = <<>>
+ASSUME \E f \in Finals : f.pc = "printed" /\ f.either /\ f.cmd.what = "transaction"
 =============================================================================
